@@ -724,6 +724,58 @@ def misplaced_calls_family():
     return out
 
 
+def seed_regression_family():
+    """the shortest replay class of every crash class this check has ever reported or been shown (fixed defects and
+    recorded seeded changes): deterministic, never sampled, run FIRST in the quick tier without a budget"""
+    out = []
+    # bad escapes incl. surrogate pairs (high-high, low-high, lone, at the ends, in includes / map keys / set)
+    sur = ["\\ud800\\ud800", "\\ud83d\\ud83d", "\\udc00\\ud800", "\\udca9\\ud83d", "\\udbff\\udbff", "\\udc00\\udc00", "\\ud800", "\\udfff", "\\ud83d\\udca9", "\\ud800\\udc00", "\\udbff\\udfff", "\\ud800a",
+           "a\\udc00", "\\ud800\\u0041", "\\ud800\\ud800\\udc00", "\\u", "\\u12", "\\uZZZZ", "\\x", "\\xZ1", "\\U0001F4A9", "\\udbff\\ue000", "\\ud7ff\\udc00", "\\", "\\q", "\\ud800\\"]
+    for e in sur:
+        out += ["{{ '%s' }}" % e, "{{ \"%s\" }}" % e, "{%% set x = '%s' %%}{{ x|length }}" % e, "{%% include '%s' %%}" % e, "{{ {\"k\": \"%s\"} }}" % e, "{{ '%s'|upper ~ '%s' }}" % (e, e)]
+    # growth loops: chain / + / ~ / nesting through a namespace, then length, sum, index, iteration, printing, drop
+    for n in (3000, 6000, 12000):
+        for step in ("ns.items|chain([i])", "ns.items + [i]", "ns.items|chain([i], [i])"):
+            if n > 3000 and step != "ns.items|chain([i])":
+                continue  # the other forms copy what they have so far: quadratic, legal, slow
+            pre = "{%% set ns = namespace(items=[]) %%}{%% for i in range(%d) %%}{%% set ns.items = %s %%}{%% endfor %%}" % (n, step)
+            out += [pre + "{{ ns.items|length }} {{ ns.items|sum }} {{ ns.items[%d] }}" % (n // 2), pre + "{% for x in ns.items %}{% endfor %}{{ ns.items|last }}", pre + "{{ ns.items|list|length }}{{ ns.items|string|length }}"]
+    # slices (A), whitespace control before non-ASCII blanks (B), loop controls in call blocks (A3), escaped loop objects (B3),
+    # cyclic hashing (B4), block cursor (A5), format caps (B5), break + for-else (A6), include + super (B6), folding (A7), indent (B7)
+    out += ["{{ 'abc'[5::-1] }}", "{{ [][0::-1] }}", "{{ (range(10)|list)[10::-1] }}", "{{ (1,2,3)[3::-1] }}", "{{ range(4)[4::-1] }}", "{{ x.a[x.a|length::-2] }}",
+            "{{ m -}}\u00a0a", "{% if m -%}\u00a0a{% endif %}", "{#- c -#}\u3000a", "{{ m -}}\u0085a", "{{ m -}} \u2003\u2003a", "{% for i in [1, 2] -%}\r\n\u00a0 {{ i }}{% endfor %}",
+            "{% macro wrap() %}[{{ caller() }}]{% endmacro %}{% for q in [1,2,3] %}{% call wrap() %}{{ q }}{% if q == 2 %}{% break %}{% endif %}{% endcall %}{% endfor %}",
+            "{% macro wrap() %}[{{ caller() }}]{% endmacro %}{% for q in [1,2,3] %}{% call wrap() %}{% continue %}{% endcall %}{% endfor %}",
+            "{% set ns = namespace() %}{% for q in [1,2,3] %}{% set ns.l = loop %}{% endfor %}{{ ns.l.revindex0 }}|{{ ns.l.revindex }}|{{ ns.l.last }}|{{ ns.l.length }}",
+            "{% set ns = namespace() %}{% set ns.me = ns %}{{ ns }}{{ {ns: 1}|length }}{{ ns in {'a': 1, 'b': 2} }}{{ {'a': 1, 'b': 2}[ns] }}{{ [ns, ns]|unique|list|length }}{{ ns|tojson }}",
+            "{{ '%.65534g'|format(0.001)|length }}", "{{ '%.65533G'|format(0.00012345)|length }}", "{{ '%.32767g'|format(0.001)|length }}", "{{ '%.32766e'|format(1.5)|length }}", "{{ '%99999999999999d'|format(1) }}", "{{ '%(\u00e9)s'|format({'\u00e9': 1}) }}",
+            "{% for q in [1,2,3] %}{{ q }}{% if q == 2 %}{% break %}{% endif %}{% else %}empty{% endfor %}", "{% for q in [] %}{{ q }}{% break %}{% else %}empty{% endfor %}",
+            "{% for y in [1,2] %}{% set v %}{% for q in [1,2] %}{{ q }}{% break %}{% else %}-{% endfor %}{% endset %}[{{ v }}]{% endfor %}",
+            "{{ -(-9223372036854775808) }}", "{{ - -9223372036854775808 }}", "{{ -(-9223372036854775807 - 1) }}", "{% if -(-9223372036854775808) > 0 %}yes{% endif %}", "{{ [1, 2, 3][:-(-9223372036854775808)] }}",
+            "{% set q = -9223372036854775808 %}{{ -q }}", "{{ ''|indent(18446744073709551615) }}", "{{ u|indent(width=18446744073709551615) }}", "{{ '\n'|indent(9223372036854775808, true) }}",
+            "{{ '\r\n'|indent(9223372036854775808, blank=true) }}", "{% set q %}{% endset %}{{ q|indent(18446744073709551615) }}", "{{ 'x'|indent(18446744073709551615) }}",
+            "{{ 5 is divisibleby(0) }}", "{{ 2|chain(2)|min }}", "{% for i in [1,2] %}{{ loop.cycle() }}{% endfor %}", "{{ [1,2,3] * 9223372036854775807 }}", "{{ range(9223372036854775807, -1, -1) }}",
+            "{{ 'abc'|slice(4611686018427387904) }}", "{{ [1,2,3]|batch(4611686018427387904, 0) }}", "{{ {'a':1}|tojson(9223372036854775807) }}", "{% import 'other.txt' as -b %}"]
+    multi = [("{% extends 'parent' %}{% set ns = namespace(seen=false) %}{% block body %}{% if ns.seen %}{{ [1, 2, 3]|batch(0) }}{% else %}{% set ns.seen = true %}[{{ super() }}]{% endif %}{% endblock %}",
+              {"templates": {"parent": "{% block body %}<{{ self.body() }}>{% endblock %}"}}),
+             ("{% block body %}[{% include 'inc' %}]{% endblock %}", {"templates": {"inc": "inc:{{ super() }}"}}),
+             ("{% extends 'b' %}{% block body %}{% set z = super() %}{% include 'inc' %}{% endblock %}", {"templates": {"inc": "{% set y = super() %}{{ y }}", "b": "{% block body %}b{% endblock %}"}})]
+    # nesting heights that add up over finished chains (A2)
+    e = "x"
+    for _ in range(8):
+        e = "(" + e + ")" + "".join(op * 400 for op in [".a", " ** 1", " * 1", " ~ 1", " + 1", " and 1", " or 1", " if 1"])
+    out.append("{{ " + e + " }}")
+    return out + multi
+
+
+def load_factor():
+    """>= 1: how much longer things take because the machine is busy (load average per core); watchdogs and time budgets scale with it"""
+    try:
+        return max(1.0, os.getloadavg()[0] / max(1, os.cpu_count() or 1))
+    except OSError:
+        return 1.0
+
+
 def mutated_fixtures(repo, rng, n):
     srcs = []
     for f in sorted(glob.glob(os.path.join(repo, "minijinja/tests/inputs/*.txt")) + glob.glob(os.path.join(repo, "minijinja/tests/parser-inputs/*.txt"))
@@ -1035,6 +1087,8 @@ def main():
         groups += [("formattext", fmt_templates), ("formatcaps", cap_templates), ("numericargs", numeric_args_family(REPO))]
         line_groups = [("linesyntax", line_syntax_family()), ("formatdirect", fmt_direct), ("formatcapsdirect", cap_direct)]
         labels = {t: l for l, t in nest}
+    if os.environ.get("C01_ONLY_REGRESSION") and not chk.replay:  # development switch: only the seed regression group
+        groups, lowmem_groups, line_groups = [], [], []
     hist = collections.Counter()
     crashes = []
     crash_extra = {}
@@ -1065,8 +1119,12 @@ def main():
     # pass: name, bin, groups, request maker, address-space limit (KiB), watchdog (ms), workers, chunk, budget per profile.
     # Budgets (quick tier only) keep the run short on a tree that has a crash class: each request that does not come back costs a
     # process restart, a hang a whole watchdog period; what a spent budget leaves out is counted as skipped.
-    passes = [("main", "prog", groups, prog_req, 8000000, WATCHDOG_MS, 12 if quick else 14, 64, (lambda: Budget(max_bad=16)) if quick else (lambda: None)),
-              ("line", "c01", line_groups, c01_req, 8000000, WATCHDOG_MS, 12 if quick else 14, 64, (lambda: Budget(max_bad=16)) if quick else (lambda: None))]
+    lf = load_factor()
+    chk.notes["load_factor"] = round(lf, 2)
+    wd_main = int(WATCHDOG_MS * min(lf, 4.0))
+    regression = ("regression", "prog", [("seedregression", seed_regression_family())] if not chk.replay else [], prog_req, 8000000, wd_main, 14, 8, lambda: None)
+    passes = [("main", "prog", groups, prog_req, 8000000, wd_main, 12 if quick else 14, 64, (lambda: Budget(max_bad=16)) if quick else (lambda: None)),
+              ("line", "c01", line_groups, c01_req, 8000000, wd_main, 12 if quick else 14, 64, (lambda: Budget(max_bad=16)) if quick else (lambda: None))]
     done = []  # (binname, flat, order, reqs, rel, res, watchdog, alt)
 
     def run_pass(ps, alt=False):
@@ -1082,8 +1140,9 @@ def main():
 
     # the strict families run beside the others, one pass and one budget per family (a crash class in one of them must not
     # use up the budget of the other)
-    strict = [("strict:" + g, "prog", [(g, es)], prog_req, 2000000, 2000 if quick else 5000, 4 if quick else 14, 4 if quick else 64,
-               (lambda: Budget(seconds=10, max_bad=25)) if quick else (lambda: None)) for g, es in lowmem_groups]
+    wd_strict = int((2000 if quick else 5000) * min(lf, 4.0))
+    strict = [("strict:" + g, "prog", [(g, es)], prog_req, 2000000, wd_strict, 4 if quick else 14, 4 if quick else 64,
+               (lambda: Budget(seconds=10 * lf, max_bad=25)) if quick else (lambda: None)) for g, es in lowmem_groups]
     # second feature set: quick = the families whose code paths differ most (cyclic values: hashing; odd values; escaped objects; format
     # strings), thorough = everything again
     if chk.replay:
@@ -1100,8 +1159,9 @@ def main():
             "{{ 'abc def'|wordwrap(width=N, break_long_words=false) }}", "{{ 'abc def'|wordcount }}", "{{ 'abc def'|truncate(N) }}", "{{ N|filesizeformat }}", "{{ N|pluralize }}", "{{ '&#N;&amp;'|striptags }}", "{{ 'abc'.center(N)|length }}",
             "{{ 'abc'.ljust(N)|length }}", "{{ 'a,b'.split(',', N) }}", "{{ 'abc'.zfill(N)|length }}", "{{ '{:N}'.format(1)|length }}", "{{ '{:.Nf}'.format(1.5)|length }}", "{{ 'abc'.replace('b', 'c', N) }}", "{{ [1, 2].index(N) }}",
             "{{ 'abc'.find('b', N) }}", "{{ 'abc'.count('b', N, N) }}", "{{ {'a': 1}.get(N) }}", "{{ 'a\u00e9'.encode is defined }}", "{{ '\u00e9{a[\u00e9]}'.format(a={'\u00e9': 1}) }}")])))
-        alt_passes = [("alt:cyclic", "prog", full_cyclic, prog_req, 2000000, 2000, 4, 4, lambda: Budget(seconds=15, max_bad=25)),
-                      ("alt:contrib", "prog", contrib_group, prog_req, 2000000, 2000, 4, 4, lambda: Budget(seconds=10, max_bad=25)),
+        alt_passes = [("alt:regression", "prog", regression[2], prog_req, 8000000, wd_main, 14, 8, lambda: None),
+                      ("alt:cyclic", "prog", full_cyclic, prog_req, 2000000, wd_strict, 4, 4, lambda: Budget(seconds=15 * lf, max_bad=25)),
+                      ("alt:contrib", "prog", contrib_group, prog_req, 2000000, wd_strict, 4, 4, lambda: Budget(seconds=10 * lf, max_bad=25)),
                       ("alt:families", "prog", pick, prog_req, 8000000, WATCHDOG_MS, 12, 64, lambda: Budget(max_bad=16)),
                       ("alt:line", "c01", line_groups, c01_req, 8000000, WATCHDOG_MS, 12, 64, lambda: Budget(max_bad=16))]
     else:
@@ -1112,6 +1172,7 @@ def main():
         run_pass(passes[0], alt=True)
         run_pass(passes[1], alt=True)
     else:
+        run_pass(regression)  # first, alone, without a budget
         th = threading.Thread(target=lambda: [run_pass(ps) for ps in strict] + [run_pass(ps, alt=True) for ps in alt_passes if ps[4] == 2000000])
         th.start()
         run_pass(passes[0])
